@@ -728,7 +728,8 @@ pub fn run(ctx: &Ctx) -> Report {
     //          sequence id is back at its starting value after 256 packets): still one response,
     //          nothing after it, and the next reply is the next command's
     if !ctx.miri {
-        let mut targets: Vec<usize> = (253..=259).chain(509..=515).collect();
+        // around 2^8, 2^9 and 2^16 packets (quick), more multiples of 256 in thorough
+        let mut targets: Vec<usize> = (253..=259).chain(509..=515).chain(65_535..=65_537).collect();
         if ctx.thorough {
             targets.extend((765..=771).chain(1021..=1027).chain(2045..=2051).chain(4093..=4099));
         }
